@@ -581,7 +581,7 @@ def sphdist(ra1, dec1, ra2, dec2, units=["deg", "deg"]):
     if units_out == "deg":
         np.rad2deg(dis, dis)
 
-    (w,) = np.where((ra1 == ra2) & (dec1 == dec2))
+    (w,) = np.where(np.atleast_1d((ra1 == ra2) & (dec1 == dec2)))
     dis[w] = 0.0
 
     return dis
